@@ -9,9 +9,15 @@ ASSUME = [
     "policy values are classes (durations: zero, 1 ns, 1 s, infinite; ownership strengths 1 and 2); TLC enumerates per policy all pairs of values in the contexts {all others absent, all others compatible, exactly one other incompatible}; the random runs sample the full product",
     "DDS 1.4 section 2.2.3 RxO table as transcribed in spec/QosRxO.tla",
 ]
+# the verdict must be taken on the QoS an endpoint announced LAST, also for a local endpoint created after discovery has
+# run: Discovery.tla with late local endpoints and announcements that change QoS (clauses C10_* of DiscoveryAbs.tla)
+DISC_SRC = dict(driver="disc", model="Discovery.tla", trace_module="Trace_Discovery.tla", trace_cfg="Trace_Discovery.cfg", env={"KNOWN_S8": "0"},
+                tiers={"quick": dict(mc=[("MC_Discovery_q_late.cfg", 8)], replay_limit=3000, random=dict(runs=300, events=40)),
+                       "thorough": dict(mc=[("MC_Discovery_t_late.cfg", 12)], replay_limit=30000, random=dict(runs=4000, events=60))})
 
 
 def run(pid, tier, seed, replay=None):
     return run_pipeline(pid, tier, seed, replay, driver="qos", model="QosRxO.tla",
                         trace_module="Trace_QosRxO.tla", trace_cfg="Trace_QosRxO.cfg",
-                        tiers=TIERS, prefixes=(pid + "_",), assumptions=ASSUME)
+                        tiers=TIERS, prefixes=(pid + "_",), assumptions=ASSUME + ["discovery side: bounded by spec/MC_Discovery_*_late.cfg; an endpoint changes its QoS between announcements only while the local endpoint it concerns does not exist yet"],
+                        extra_sources=(DISC_SRC,))
